@@ -256,6 +256,10 @@ def build(run):
     finalize.verify_finalize(run)
     from specs import connect
     connect.verify_connect(run)
+    # 'event destinations ... given by name are resolved', 'references to blocks of the wrong kind fail': every Event registers its destination
+    # with the resolver, whether it was given by name or as an object (contract shared with C18)
+    from specs import event_send
+    event_send.verify_event_init(run)
     # ---- lemma one_inverter: the second resolution of the same shortcut name finds the block created by the first ------------------------
     b0 = Const('blocks0', ArraySort(StringSort(), OI)); s = Const('sname', StringSort()); r = Int('created')
     b1 = Store(b0, s, OI.Some(r))
